@@ -8,6 +8,7 @@
     --(searchPaths_complete)-->  the path is reported.
 -/
 import TealerModel.Props.TieFlow
+import TealerModel.Props.TieAsserted
 import TealerModel.Lemmas.Dfs
 import TealerModel.Props.Common
 import TealerModel.Lemmas.Asserted
@@ -307,5 +308,38 @@ theorem C01_tie_transfer_functions {D : Type} [DecidableEq D] (A : Analysis D) (
         (if g.isLeaf b then getMap cur b A.dom.null
          else A.dom.inter (Generated.calculateLivein A.dom univ E key (TieF.graphBlock g b) (fun k => getMap cur k A.dom.null)) (bc b)) :=
   ⟨TieF.reachin_tie A g univ bc pc cur b E key, TieF.livein_tie A g univ bc cur b E key⟩
+
+/-- `_get_asserted` IS THE PYTHON'S.  The recursion of generic.py over condition trees (`&&` / `||` flattened by
+    `compute_equations` / `_flatten_ast`, `!` swapping the two sides, an unknown operand widening one side to the universal set),
+    translated statement by statement from /repo's Python on this run (Generated/Asserted.lean; the unbounded recursion bounded by
+    fuel), returns - with fuel block length + 3 - exactly the model's `getAsserted`, on every stack value that the translated
+    `_block_level_constraints` / `_path_level_constraints` pass to it (the parameter `gaOf` of `C01_tie_constraints`), for every
+    analysis whose leaf matcher `single` is the model's (premise; discharged for the address and fee analyses by
+    `TieA.single_addr` / `TieA.single_fee` from the translated leaf matchers) -/
+theorem C01_tie_get_asserted {D : Type} [DecidableEq D] (A : Analysis D) (intcs : Option (List Nat)) (ins : List Ins) (key : Key)
+    (E : PyView.Env) (single : Key → PySV → D × D)
+    (hs : ∀ q o, single key (TieA.full (constructAst ins) (some (q, o))) = A.single intcs (constructAst ins) key q)
+    (n q o : Nat) (hq : q < ins.length) (hn : ins.length ≤ n) :
+    Generated.getAssertedPy A.dom (A.univ key.base) single E (ins.length + 3) key (treeOf (constructAst ins) n (some (q, o))) =
+      some (TieF.gaOf A intcs (constructAst ins) key (ins.length + 1) (treeOf (constructAst ins) n (some (q, o)))) :=
+  TieA.gaOf_is_python A intcs ins key E single hs n q o hq hn
+
+/-- the same with the leaf matcher included, for the address analysis: nothing of `_get_asserted` is a parameter any more -/
+theorem C01_tie_get_asserted_addr (intcs : Option (List Nat)) (ins : List Ins) (key : Key) (n q o : Nat) (hq : q < ins.length)
+    (hn : ins.length ≤ n) :
+    Generated.getAssertedPy addrAnalysis.dom (addrAnalysis.univ key.base)
+        (fun k v => Generated.getAssertedTxnGtxn (TieM.envOf intcs) (TieM.envOf intcs) k v) (TieM.envOf intcs) (ins.length + 3) key
+        (treeOf (constructAst ins) n (some (q, o))) =
+      some (TieF.gaOf addrAnalysis intcs (constructAst ins) key (ins.length + 1) (treeOf (constructAst ins) n (some (q, o)))) :=
+  TieA.getAsserted_tie_addr intcs ins key n q o hq hn
+
+/-- non-vacuity: `txn RekeyTo; global ZeroAddress; ==; !; assert` - the translated Python evaluated by the kernel on the stack
+    value of the `!` gives `some` of a pair whose two sides differ -/
+example :
+    let ins : List Ins := [⟨1, .txn "RekeyTo", "txn RekeyTo"⟩, ⟨2, .global "ZeroAddress", "global ZeroAddress"⟩, ⟨3, .cmp .eq, "=="⟩, ⟨4, .not, "!"⟩, ⟨5, .assert, "assert"⟩]
+    (Generated.getAssertedPy addrAnalysis.dom (addrAnalysis.univ "RekeyTo")
+        (fun k v => Generated.getAssertedTxnGtxn (TieM.envOf none) (TieM.envOf none) k v) (TieM.envOf none) (ins.length + 3) ⟨"RekeyTo", .self⟩
+        (treeOf (constructAst ins) ins.length (some (3, 0)))).map (fun r => r.1 != r.2) = some true := by
+  decide +kernel
 
 end Tealer.C01
